@@ -130,6 +130,10 @@ type suiteRun struct {
 	// state of the faulty-server wrappers
 	firstParams   *spb.SessionParameters
 	modifyStreams []*faultyModify
+	// maxSeen: per server, the highest election id any client has sent so far (in the order the messages
+	// reached the server's streams - what the server's own maximum will be once it has worked through them;
+	// a server may read ahead of what it has processed, so its present state is not the thing to ask)
+	maxSeen map[*server.Server]*spb.Uint128
 }
 
 func (sr *suiteRun) netFor(noFwd bool) *simnet.Net {
